@@ -82,6 +82,11 @@ func renderAttrs(attrs []html.Attribute) string {
 		}
 
 		sb.WriteByte(' ')
+		if a.Namespace != "" {
+			// xlink:href, xml:lang in SVG / MathML: the parser keeps the prefix apart
+			sb.WriteString(a.Namespace)
+			sb.WriteByte(':')
+		}
 		sb.WriteString(key)
 		sb.WriteByte('=')
 		sb.WriteByte('"')
